@@ -112,7 +112,7 @@ def random_flat(rng, *, n_nodes=(2, 5), cyclic=0.35, gate=0.6, multi_out=0.25, s
 
 def job(jid, prog, provided, mode="sync", select=None, lists=None):
     return {"id": jid, "prog": prog, "provided": provided, "mode": mode, "select": list(select) if select else list(IR.UNSET),
-            "lists": [list(x) for x in (lists or [])], "map": {"over": [], "mode": "zip", "eh": "raise"}, "seq": [], "cap": 0}
+            "lists": [list(x) for x in (lists or [])], "map": {"over": [], "mode": "zip", "eh": "raise"}, "seq": [], "cap": 0, "alt": IR.prog("_", [])}
 
 
 def _subsets(pool, lo, hi):
